@@ -11,6 +11,7 @@
 #include <array>
 #include <algorithm>
 #include <functional>
+#include <thread>
 
 #define private public
 #define protected public
